@@ -23,6 +23,19 @@ extern "C" void osmium_verif_sched_point(const char*) {
     if ((n.fetch_add(1, std::memory_order_relaxed) & 3) == 0) sched_yield();   // perturb a little at the flag accesses
 }
 
+// libc functions returning a pointer into static storage: libc itself is not instrumented, so ThreadSanitizer cannot see the
+// write into the static buffer. These instrumented stand-ins make concurrent calls (and the callers' reads of the shared
+// result) visible as the data race they are.
+#include <time.h>
+#include <string.h>
+extern "C" {
+struct tm* gmtime(const time_t* tp) { static struct tm buf; gmtime_r(tp, &buf); return &buf; }
+struct tm* localtime(const time_t* tp) { static struct tm buf; localtime_r(tp, &buf); return &buf; }
+char* ctime(const time_t* tp) { static char buf[64]; ctime_r(tp, buf); return buf; }
+char* asctime(const struct tm* tmv) { static char buf[64]; asctime_r(tmv, buf); return buf; }
+char* strtok(char* str, const char* delim) { static char* save; return strtok_r(str, delim, &save); }
+}
+
 namespace vsched {
 
 namespace {
